@@ -67,3 +67,7 @@ chk("C15", "E1", "exploration",
     "deterministic simulation: real dial_happy_eyeballs over a scripted resolver and a scripted TCP connector on a virtual clock, oracle over the attempt log",
     "Seeded exploration of answer orders/timings of the two lookups and of per-address connect outcomes (succeed, fail fast, fail slow, hang) around the 50 ms resolution delay, 250 ms attempt delay, 1.5 s dial timeout and 3 s DNS timeout; oracle: returned stream is the first successful attempt, Err only after resolution finished and every resolved address failed, first attempt prefers the preferred family within the resolution delay, later attempts alternate families while both have untried addresses.",
     "TcpStream::connect is replaced by a scripted connector (cfg seam); a loopback socket serves as identity token for a successful attempt.")
+chk("C17", "E1", "exploration",
+    "deterministic simulation: real RelayTransport::poll_recv fed through its real queue, waker-driven noq-like poller, exact expected-delivery oracle and lost-wake-up / busy-loop detection",
+    "Seeded exploration of batches (contents 1..65535 bytes, any segment size incl. larger than the buffer and non-dividing) against receive buffers of 1200..94208 bytes and 1..8 slots, with a poller that re-polls only when its waker fired; oracle: the datagrams handed to QUIC are exactly those that fit, in arrival order, each once, never empty or zero-stride; when the poller is parked nothing deliverable remains queued; poll count bounded.",
+    "The queue is fed by the harness instead of the ActiveRelayActor (same channel, same item type).")
